@@ -11,7 +11,7 @@ open Yorkie Yorkie.Text
 
 /-! ### no split needed -/
 
-theorem splitAfter_noop {s : TextSt} (wf : WF s) {n : TNode} (hn : n ∈ s) (hlen : 0 < n.len) :
+theorem splitAfter_noop {s : TextSt} (wf : WFg s) {n : TNode} (hn : n ∈ s) (hlen : 0 < n.len) :
     splitAfter (n.id.1, n.id.2 + n.len - 1) (abs s) = abs s := by
   unfold splitAfter
   have : hasOpen (nxt (n.id.1, n.id.2 + n.len - 1)) (abs s) = false := by
@@ -47,18 +47,18 @@ def AnchorIn (l : Cells) (p : Pos) : Prop :=
   (p.id.2 + p.rel = 0 ∧ p.id.1 = headId.1) ∨
     (0 < p.id.2 + p.rel ∧ (p.id.1, p.id.2 + p.rel - 1) ∈ cids l)
 
-theorem fnws_abs {s : TextSt} (wf : WF s) {p : Pos} (hok : AnchorIn (abs s) p) (ts : Ticket) :
+theorem fnws_abs {s : TextSt} (wf : WFg s) {p : Pos} (hok : AnchorIn (abs s) p) (ts : Ticket) :
     ∃ s1 A cur rest,
       findNodeWithSplit s p ts =
         .ok (s1, (skipFrom ts cur rest).1.id, (skipFrom ts cur rest).2.map (·.id)) ∧
-      s1 = A ++ cur :: rest ∧ WF s1 ∧ abs s1 = splitAfterO (anchorOf p) (abs s) ∧
+      s1 = A ++ cur :: rest ∧ WFg s1 ∧ abs s1 = splitAfterO (anchorOf p) (abs s) ∧
       EndsAt cur A (anchorOf p) ∧ (∀ x ∈ s1, ∃ m ∈ s, x.id.1 = m.id.1) := by
   rcases hok with ⟨h0, ht⟩ | ⟨hpos, hcell⟩
   · -- the head
     obtain ⟨hd, r, hs, hid, hu⟩ := wf.head
     have hq : ((p.id.1, p.id.2 + p.rel) : Id) = headId := by
       rw [h0, ht]; rfl
-    have hfl := floor_head wf hs
+    have hfl := floor_head_g wf hs
     have hanch : anchorOf p = none := by unfold anchorOf; rw [if_pos h0]
     refine ⟨s, [], hd, r, ?_, hs, wf, by rw [hanch]; rfl, by rw [hanch]; exact ⟨rfl, hu⟩,
       fun x hx => ⟨x, hx, rfl⟩⟩
@@ -74,7 +74,7 @@ theorem fnws_abs {s : TextSt} (wf : WF s) {p : Pos} (hok : AnchorIn (abs s) p) (
   · -- a cell
     obtain ⟨n, hn, h1, h2, h3⟩ := block_of_cell hcell
     simp only at h1 h2 h3
-    have hfl := floor_node wf hn (q := (p.id.1, p.id.2 + p.rel)) h1 (by simp only; omega)
+    have hfl := floor_node_g wf hn (q := (p.id.1, p.id.2 + p.rel)) h1 (by simp only; omega)
       (by simp only; omega)
     have hanch : anchorOf p = some (p.id.1, p.id.2 + p.rel - 1) := by
       unfold anchorOf; rw [if_neg (by omega)]
@@ -114,7 +114,7 @@ theorem fnws_abs {s : TextSt} (wf : WF s) {p : Pos} (hok : AnchorIn (abs s) p) (
           (splitMap n (p.id.2 + p.rel - n.id.2) n) (by rw [ids_map_splitMap, splitMap_id]; exact hnA)
         rw [splitMap_id] at this
         exact this
-      refine ⟨_, _, _, _, unf hloc, by rw [hs, hsp], wf_splitNode wf hn k0 k1, ?_, ?_,
+      refine ⟨_, _, _, _, unf hloc, by rw [hs, hsp], wfg_splitNode wf hn k0 k1, ?_, ?_,
         fun x hx => createdAt_splitNode hn k0 k1 hx⟩
       · rw [hanch, abs_splitNode wf hn k0 k1, h1]
         rw [show n.id.2 + (p.id.2 + p.rel - n.id.2) - 1 = p.id.2 + p.rel - 1 by omega]; rfl
@@ -183,7 +183,7 @@ theorem nodup_cids_abs_aux {s : TextSt} (nd : (ids s).Nodup)
     · exact hne (Prod.ext (a1.symm.trans b1) h)
     · have := dj m (List.mem_cons_of_mem _ hm) n (by simp) (b1.symm.trans a1) h; omega
 
-theorem nodup_cids_abs {s : TextSt} (wf : WF s) : (cids (abs s)).Nodup :=
+theorem nodup_cids_abs {s : TextSt} (wf : WFg s) : (cids (abs s)).Nodup :=
   nodup_cids_abs_aux wf.nodup wf.disjoint
 
 /-! ### list facts for ranges -/
@@ -247,7 +247,7 @@ theorem rangeIds_eq (fr to : Option Id) (L : List Id) :
   · cases fr <;> cases to <;> rfl
 
 /-- after the anchor come exactly the cells of the blocks after `cur` -/
-theorem dropAfterO_struct {s : TextSt} (wf : WF s) {A : TextSt} {cur : TNode} {C : TextSt}
+theorem dropAfterO_struct {s : TextSt} (wf : WFg s) {A : TextSt} {cur : TNode} {C : TextSt}
     (hs : s = A ++ cur :: C) {a : Option Id} (h : EndsAt cur A a) :
     dropAfterO a (cids (abs s)) = cids (abs C) := by
   have hsplit : abs s = abs (A ++ [cur]) ++ abs C := by
@@ -388,7 +388,7 @@ theorem firstOlder_abs_older {ts : Ticket} {D : TextSt}
         List.head?_cons, Option.map_some]
 
 /-- **the right neighbour is determined by the cell ids alone** (so it survives later splits) -/
-theorem right_eq_firstOlder {s : TextSt} (wf : WF s) {A K D : TextSt} {cur : TNode}
+theorem right_eq_firstOlder {s : TextSt} (wf : WFg s) {A K D : TextSt} {cur : TNode}
     (hs : s = A ++ cur :: (K ++ D)) {a : Option Id} (hends : EndsAt cur A a) {ts : Ticket}
     (hK : ∀ x ∈ K, x.id.1.after ts = true)
     (hD : ∀ d D', D = d :: D' → d.id.1.after ts = false ∧ d.units ≠ []) :
@@ -447,7 +447,7 @@ theorem hasOpen_splitAfterO_mono {q : Id} {l : Cells} (h : hasOpen q l = false) 
   | some a => exact hasOpen_splitAfter_mono h a
 
 /-- a cell with a boundary after it is the last cell of its block -/
-theorem struct_of_anchor {s : TextSt} (wf : WF s) {a : Option Id}
+theorem struct_of_anchor {s : TextSt} (wf : WFg s) {a : Option Id}
     (h : ∀ t, a = some t → t ∈ cids (abs s) ∧ hasOpen (nxt t) (abs s) = false) :
     ∃ A b C, s = A ++ b :: C ∧ EndsAt b A a := by
   cases a with
